@@ -20,7 +20,10 @@ MIRRORED = [
     (r"graph\.validateFilter$", {"unexpected filter type": "filter-type"}),
     (r"graph\.findBackendTLSPolicyForService$", {"index out of range": "btp-conditions-index"}),
 ]
-MAY_SITES = {"btp-conditions-index"}   # the model says "fires if reached"; reachability is not modelled
+MAY_SITES = {"btp-conditions-index"}   # the pre-fix model says "fires if reached"; reachability is not modelled
+# Since commits d734bd5 / 02715d5 / 72dccd7 the current-code mirrors never fire namespace-lookup, plus-secret-field and
+# btp-conditions-index; the PRE-FIX mirrors (`pre=` / `premay=` of the driver) still recognise the old input classes,
+# so that a regression of one of the repairs is reported under its old (now `fixed`) signature.
 
 
 def mirrored_site(func, msg):
@@ -32,14 +35,15 @@ def mirrored_site(func, msg):
     return None
 
 
-def signature(func, msg, predicted, may, file=""):
-    """site-based signature of a panic of the real code; the three named classes are confirmed by the Lean mirror."""
+def signature(func, msg, pre, premay, file=""):
+    """site-based signature of a panic of the real code; the three named (repaired) classes are confirmed by the
+    pre-fix Lean mirrors on the same view."""
     m = mirrored_site(func, msg)
-    if m == "namespace-lookup" and m in predicted:
+    if m == "namespace-lookup" and m in pre:
         return "C05:panic:namespace-lookup-before-namespace-event"
-    if m == "plus-secret-field" and m in predicted:
+    if m == "plus-secret-field" and m in pre:
         return "C05:panic:plus-secret-missing-field"
-    if m == "btp-conditions-index" and m in may:
+    if m == "btp-conditions-index" and m in premay:
         return "C05:panic:backend-tls-policy-ancestors-full"
     if re.search(r"graph\.process(HTTP|GRPC)RouteRule$", func) and "index out of range" in msg:
         return "C05:panic:backendref-filters-index"
@@ -64,6 +68,8 @@ class Acc:
         self.sigs = collections.Counter()
         self.depth = collections.Counter()
         self.features = collections.Counter()
+        self.pre_classes = collections.Counter()
+        self.ns_unknown_reports = collections.Counter()
         self.outcomes = collections.Counter()
         self.profiles = collections.Counter()
         self.distinct, self.nontrivial = set(), set()
@@ -99,8 +105,9 @@ def process(ctx, acc, lines):
     for h, v, _ in steps:
         ur = re.search(r"(?:^| )ur=(\d+)", v)
         up = re.search(r"(?:^| )up=(\S+)", v)
+        pu = re.search(r"(?:^| )pu=(\d+)", v)
         jin.append(f"outcome={h.get('outcome', '?')} site={h.get('site', '-')} ur={ur.group(1) if ur else 0} "
-                   f"up={up.group(1) if up else '-'}")
+                   f"up={up.group(1) if up else '-'} pu={pu.group(1) if pu else 0}")
     verdicts = ctx.driver("judge", jin)        # the property on what the real controller did
     acc.steps += len(steps)
     if len(acc.samples) < 2:
@@ -108,15 +115,20 @@ def process(ctx, acc, lines):
     for (h, v, msg), out, ver in zip(steps, outs, verdicts):
         o = parse_kv(out) if out != "bad-op" else {}
         predicted = [] if o.get("sites", "-") == "-" else o["sites"].split(",")
-        may = [] if o.get("may", "-") == "-" else o["may"].split(",")
+        pre = [] if o.get("pre", "-") == "-" else o["pre"].split(",")
+        premay = [] if o.get("premay", "-") == "-" else o["premay"].split(",")
+        for x in pre + premay:
+            acc.pre_classes[x] += 1
         outcome = h.get("outcome")
         acc.outcomes[outcome] += 1
         acc.profiles[h.get("profile")] += 1
         func = h.get("site", "-").split("@")[-1]
         srcfile = h.get("site", "-").split("@")[0]
-        key = re.sub(r"(^| )(ev|dp|fx|shadow|sk)=\S+", "", v)
+        key = re.sub(r"(^| )(ev|dp|fx|shadow|sk|nl)=\S+", "", v)
         acc.distinct.add(hash(key))
         kv = parse_kv(v)
+        if kv.get("nl", "-") != "-":
+            acc.ns_unknown_reports.update(kv["nl"].split(","))
         fx = kv.get("fx", "-")
         if fx != "-":
             acc.features.update(fx.split(","))
@@ -126,7 +138,7 @@ def process(ctx, acc, lines):
             if len(f) >= 6:
                 deep = (int(f[3]) > 0) + (int(f[4]) > 0) + (int(f[5]) > 0)
                 acc.depth[f"attached={int(f[3]) > 0},servers={int(f[4]) > 0},upstreams={int(f[5]) > 0}"] += 1
-                if deep >= 2 or predicted:
+                if deep >= 2 or predicted or pre or premay:
                     acc.nontrivial.add(hash(key))
         if out == "bad-op":
             acc.diffs += 1
@@ -141,8 +153,15 @@ def process(ctx, acc, lines):
             m = mirrored_site(func, msg)
             if m is None:
                 acc.unmirrored[func] += 1          # implicit runtime panic or unmirrored site: judged, not modelled
-            elif m in predicted or (m in MAY_SITES and m in may):
+            elif m in predicted:
                 acc.agree_panic += 1
+            elif m in pre or (m in MAY_SITES and m in premay):
+                # a repaired site fires again exactly where the pre-fix mirror says it would: regression of a fix
+                acc.diffs += 1
+                if acc.diffs <= 3:
+                    ctx.broken(f"the real code panicked at the REPAIRED site {m} ({func}: {msg}); the pre-fix Lean mirror "
+                               f"predicts it on this view, the current-code mirror (proved total) does not",
+                               replay={"case": h, "view": v, "model": out})
             elif shadow_failed:
                 acc.unmirrored[func + " (view unavailable)"] += 1
             else:
@@ -162,7 +181,7 @@ def process(ctx, acc, lines):
                 acc.agree_ok += 1
         if ver != "ok":
             if ver.startswith("fail panic"):
-                sig = signature(func, msg, predicted, may, srcfile)
+                sig = signature(func, msg, pre, premay, srcfile)
                 what = f"the control plane panics in {func}: {msg}"
             elif ver.startswith("fail hang"):
                 sig = f"C05:hang:{h.get('profile')}"
@@ -248,6 +267,8 @@ def run(ctx):
         "signatures": dict(acc.sigs),
         "depth_histogram": dict(acc.depth),
         "dataplane_features_histogram": dict(acc.features),
+        "steps_in_repaired_input_classes": dict(acc.pre_classes),
+        "parentref_reports_of_routes_with_unknown_namespace": dict(acc.ns_unknown_reports),
         "generator_tags": dict(tags),
         "optional_spec_fields_total": g.get("optional_fields_total"),
         "optional_spec_fields_populated_in_some_case":
@@ -264,7 +285,7 @@ def run(ctx):
         "PartialObjectMetadata; the fake client holds the EndpointSlices for the real resolver",
         "hangs are bounded-time observations (per-step timeout), not proofs of termination",
         "implicit runtime panics (nil dereference, index, nil map) are decided by exploration of the real code; only the three "
-        "mirrored ones (nil From, nil Path, BackendTLSPolicy Conditions[0]) are in the Lean model",
+        "mirrored ones (nil From, nil Path, BackendTLSPolicy Conditions[0] - the last guarded since 72dccd7) are in the Lean model",
     ], trusted=[
         "harness/pipeline (shared runner) + harness/c05/ctrl.go wiring of Plus secret metadata as StartManager does",
         "view extraction in harness/c05/view.go (BuildGraph on the live store with the Namespaces map completed)",
